@@ -53,8 +53,6 @@ class Profile:
 # classes excluded while the corresponding findings are open (see known_findings.json)
 DEFAULT_OFF = {
     "pow",                 # `**` emitted verbatim
-    "int_truediv",         # int / int
-    "floordiv_mod_neg",    # // and % with negative operands
     "boolop_nonbool",      # `a or b` on non-bools
     "str_of_bool",         # str(flag) / f"{flag}"
     "retype",              # a name changes its type
@@ -64,6 +62,7 @@ DEFAULT_OFF = {
     "str_lit_plus_lit",    # "a" + "b"
     "try",
     "list_elem_assign",
+    "call_arg_order",      # f(a(), b()): C++ evaluates arguments in an unspecified order
     "macro_effectful_arg", # abs/min/max are macros and a < b < c repeats b: an effectful helper call there runs twice
     "for_bound_mutated",   # range(expr) is re-evaluated on every iteration in C
     "unannotated_param",   # parameter types are only inferred from call sites that are assignments
@@ -179,8 +178,9 @@ class Gen:
         hs = [h for h in self.helpers if h[2] == "int" and h[0] != self.in_func]
         if hs and not self.no_calls:
             opts += [lambda: self.call(self.choice(hs), depth - 1)] * 2
-        if not self.p.on("floordiv_mod_neg"):
-            pass
+        if self.p.on("floordiv_mod_neg"):
+            nz = lambda: self.choice([str(v) for v in (-9, -4, -3, -2, -1, 1, 2, 3, 5, 7)])
+            opts += [lambda: (self.feat("floordiv_signed"), f"({sub()} // {nz()})")[1], lambda: (self.feat("mod_signed"), f"({sub()} % {nz()})")[1]]
         return self.choice(opts)()
 
     def e_float(self, depth):
@@ -206,7 +206,10 @@ class Gen:
             opts += [lambda: self.macro(lambda: f"abs({sub()})"), lambda: self.macro(lambda: f"max({sub()}, {sub()})"),
                      lambda: self.macro(lambda: f"min({sub()}, {sub()})")]
         if self.p.on("int_truediv"):
-            opts.append(lambda: f"({self.e_int(depth - 1)} / {self.int_lit(1, 9)})")
+            opts.append(lambda: (self.feat("int_truediv"), f"({self.e_int(depth - 1)} / {self.choice(['1', '2', '4', '8', '-2', '5'])})")[1])
+        if self.p.on("floordiv_mod_neg"):
+            fd = lambda: self.choice(["2.0", "0.5", "-2.0", "4", "-1.5", "3"])
+            opts += [lambda: (self.feat("float_floordiv"), f"({sub()} // {fd()})")[1], lambda: (self.feat("float_mod"), f"({sub()} % {fd()})")[1]]
         if self.devs and not self.no_calls:
             g_ = self.dev_getter("float")
             if g_:
@@ -318,7 +321,20 @@ class Gen:
     def call(self, h, depth):
         name, ptypes, _ = h
         self.feat("helper_call")
-        return f"{name}(" + ", ".join(self.expr(t, min(depth, 1)) for t in ptypes) + ")"
+        if self.p.on("call_arg_order") or len(ptypes) < 2:
+            return f"{name}(" + ", ".join(self.expr(t, min(depth, 1)) for t in ptypes) + ")"
+        # C++ leaves the order of argument evaluation open: while that finding is open at most one argument may have an effect
+        hot = self.d(st.integers(0, len(ptypes) - 1))
+        args = []
+        for i, t in enumerate(ptypes):
+            if i != hot:
+                self.no_calls += 1
+            try:
+                args.append(self.expr(t, min(depth, 1)))
+            finally:
+                if i != hot:
+                    self.no_calls -= 1
+        return f"{name}(" + ", ".join(args) + ")"
 
     def any_expr(self, depth=None):
         t = self.choice(["int", "int", "float", "bool", "str", "str"])
